@@ -47,14 +47,18 @@ def crash_site(e):
     return type(inner).__name__, site
 
 
-def guarded(src, opts, limit=None):
+def guarded(src, opts, limit=None, via_file=False):
     """-> ('ok'|'refused'|'crash'|'hang', detail).  The watchdog counts the CPU time of this process (ITIMER_PROF), not
     wall time: a loaded machine must not turn a slow schedule into a 'hang'."""
     old = signal.signal(signal.SIGPROF, _alarm)
     signal.setitimer(signal.ITIMER_PROF, limit or WATCHDOG_S)
     try:
         try:
-            compiler().convert(src, **opts)
+            if via_file:
+                # the path of the command line: convert_file reads the text from a file object and writes the result
+                compiler().convert_file(io.StringIO(src), io.StringIO(), **{k: v for k, v in opts.items() if k not in ("add_suffix", "skip_procedure_headers")})
+            else:
+                compiler().convert(src, **opts)
             return "ok", ""
         except Hang:
             return "hang", f"no result within {limit or WATCHDOG_S} s of CPU time"
@@ -182,6 +186,8 @@ FULL = dict(add_standard_prefix=True, add_suffix=True, skip_procedure_headers=Fa
 
 def check_one(job):
     src, oname = job
+    if oname == "file":
+        return (job, guarded(src, FULL, via_file=True))  # the text exactly as given (no line end added): empty files, NUL only ...
     return (job, guarded(src + "\n", PLAIN if oname == "plain" else FULL))
 
 
@@ -236,6 +242,9 @@ def monitor(ctx, tier):
     for s in extreme_inputs():
         jobs.append((s, "plain"))
         jobs.append((s, "full"))
+        jobs.append((s, "file"))
+    for s in ("\x1a", "10 PRINT 1\x1a", "10 PRINT 1\n\x1a", "\r", "\r\n", " ", "\n\n", "10 PRINT 1", "10 PRINT 1\r"):
+        jobs.append((s, "file"))
     # de-duplicate
     jobs = list(dict.fromkeys(jobs))
     ctx.bounds["monitor_inputs"] = len(jobs)
@@ -248,7 +257,7 @@ def monitor(ctx, tier):
             ctx.violation(f"crash:{detail}", f"{src[:90]!r} [{oname}] raises {detail}", {"source": src, "options": oname})
         elif status == "hang":
             # replay before reporting: once more in this process with four times the CPU budget
-            again = guarded(src + "\n", PLAIN if oname == "plain" else FULL, limit=4 * WATCHDOG_S)
+            again = guarded(src, FULL, limit=4 * WATCHDOG_S, via_file=True) if oname == "file" else guarded(src + "\n", PLAIN if oname == "plain" else FULL, limit=4 * WATCHDOG_S)
             ctx.stats["traces_validated_against_impl"] += 1
             if again[0] != "hang":
                 ctx.notes.append(f"watchdog fired once for {src[:60]!r} but the input converts in time on replay ({again[0]})")
@@ -462,6 +471,10 @@ def run(tier):
 def replay(rec):
     if "source" in rec:
         opts = rec.get("options")
+        if opts == "file":
+            r = guarded(rec["source"], FULL, via_file=True)
+            print(r)
+            return r[0] in ("crash", "hang")
         if isinstance(opts, str):
             o = PLAIN if opts == "plain" else FULL
         elif isinstance(opts, dict):
